@@ -220,24 +220,40 @@ def main(argv=None):
     rc = 0
     replay_path = None
     if fresh:
-        v = fresh[0]
-        # determinism discipline: the counterexample is replayed twice, each time in a fresh
+        # determinism discipline: a counterexample is replayed twice, each time in a fresh
         # interpreter (single case on fresh objects; if the failure needs what its shard did before -
         # state leaking between calls or hidden in the library - the shard is re-run).  Both replays
-        # must reproduce it with the same observation; anything else is a harness error.
-        replay_path = write_replay(pid, v, seed, tier)
+        # must reproduce it with the same observation.  Candidates are the cheapest counterexample of
+        # each violation class, cheapest first; one that does not replay identically is never reported
+        # (e.g. an outcome that depends on task names dask derives per process) and the next class is
+        # tried; if none replays, the run ends as a harness error, not as a verdict.
+        cands, seen_cls = [], set()
+        for w in fresh:
+            if (w["sub"], w["cls"]) not in seen_cls:
+                seen_cls.add((w["sub"], w["cls"]))
+                cands.append(w)
         env = dict(os.environ, VERIF_SEED=str(seed))
-        outs = []
-        for _ in range(2):
-            p = subprocess.run(
-                [sys.executable, "-m", "xmc.run", pid, "--replay", replay_path],
-                cwd=VERIF, env=env, capture_output=True, text=True,
-            )
-            outs.append((p.returncode, [l for l in p.stdout.splitlines() if l.startswith(' "observed"') or l.startswith(' "cls"')]))
-        if outs[0][0] != 1 or outs[0] != outs[1]:
-            print("HARNESS-ERROR: counterexample does not replay deterministically in fresh processes "
-                  f"(rc={outs[0][0]},{outs[1][0]})")
-            print(json.dumps(v, indent=1)[:2000])
+        v = None
+        for w in cands[:6]:
+            replay_path = write_replay(pid, w, seed, tier)
+            outs = []
+            for _ in range(2):
+                p = subprocess.run(
+                    [sys.executable, "-m", "xmc.run", pid, "--replay", replay_path],
+                    cwd=VERIF, env=env, capture_output=True, text=True,
+                )
+                outs.append((p.returncode, [l for l in p.stdout.splitlines() if l.startswith(' "observed"') or l.startswith(' "cls"')]))
+            if outs[0][0] == 1 and outs[0] == outs[1]:
+                v = w
+                break
+            print(f"(counterexample of class {w['sub']}/{w['cls']} does not replay identically in fresh processes (rc={outs[0][0]},{outs[1][0]}): not reported)")
+            try:
+                os.remove(replay_path)
+            except OSError:
+                pass
+        if v is None:
+            print("HARNESS-ERROR: no counterexample replays deterministically in fresh processes")
+            print(json.dumps(cands[0], indent=1)[:2000])
             print(p.stdout[-1500:], p.stderr[-1500:])
             return 2
         classes = sorted({(w["sub"], w["cls"]) for w in fresh})
